@@ -31,6 +31,17 @@ CLAIMED["C20"] = (
     "Trusted: the FakePopen stub as a model of subprocess (poll/communicate/kill/TimeoutExpired); the automaton in obligations/sx_c20.py. Outside: WebApp, real process timing races, join() without timeout on a hanging program, applications other than the four MSA wrappers, map_sequence/map_matrix.",
     "DESIGN.md §4 C20")
 
+CLAIMED["C02"] = (
+    "KX: bonds.pyx kernels lowered from the source text and executed over bit-vector C integers with z3 (full int32 x uint32 domain for the index conversion; one inductive step of each mutating kernel from an arbitrary state satisfying the representation invariant); plus solver-driven case split of operation sequences on the compiled class",
+    "Bounded model checking of the real BondList code. (1) _to_positive_index for EVERY int32 index and uint32 atom count (unbounded within the machine types). (2) Inductive step: from any canonical table of <= 2 (3) bonds over 4 atoms with symbolic endpoints/types and any cached max_bonds_per_atom >= the true maximum, get_bonds / _get_max_bonds_per_atom / add_bond / remove_bond / remove_bonds_to with symbolic arguments keep every buffer access in bounds, re-establish the invariant and match the mapping model. (3) All operation sequences of length 2 (3) over 11 operations from 6 construction tables and 12 index objects on the compiled class, every view compared with the mapping model, results checked for aliasing.",
+    "Trusted: the lowering + typed runtime (validated per run against the compiled module on concrete vectors while the binary is fresh), symnp shim, z3. Cython cannot be run here: a changed .pyx is checked at source level (source-level replay), a changed binary by (3). Outside: > 3 bonds / 4 atoms in (2), self-bonds, connect_via_*, find_rotatable_bonds, _remove_redundant_bonds internals (pointer arrays; covered only through (3)). Known finding: index < -atom_count.",
+    "DESIGN.md §4 C02")
+CLAIMED["C07"] = (
+    "KX: hybrid36.pyx lowered from source and executed over a symbolic number / symbolic string with z3 (all values at widths 4 and 5)",
+    "Bounded model checking of hybrid-36: for widths 4 and 5, decode(encode(n)) == n with correct width and alphabet for ALL n in 0..max, every int32 outside the range is refused, encode(decode(s)) == s for ALL strings over the alphabet with a leading letter. (Record layout / column-width obligations are being added; until then only this part of C07 is decided.)",
+    "Trusted: lowering + int-mode C integer runtime (validated against the compiled module per run), SX string/int rendering model, z3. Outside (this version): ATOM/HETATM record assembly, CRYST1, CONECT, coordinate/B-factor column widths.",
+    "DESIGN.md §4 C07")
+
 NOT_APPLICABLE = {
     "C15": "float results of numpy/LAPACK (linalg solves, trigonometry, argmin over float images): no integer/string logic in front of the C boundary that a solver could reason about; an abstraction over the reals would verify a model of numpy, not the code (DESIGN §6)",
     "C16": "optimality/properness come from np.linalg.svd/det (LAPACK behind FFI) on float32 data; no encodable source; z3 terms cannot pass astype(float32) (DESIGN §6)",
